@@ -11,6 +11,7 @@ Not decided: row order a database returns; which column an ORDER BY names after 
 """
 from synq import (walk, show, show_stmts, strs, last_seg, pat_alts, pat_head, tail_expr, matches_of, mcalls, calls,
                   macros, lit_val, AnchorMissing, walk_no_closure)
+import re
 import tables
 import linear
 import flow
@@ -82,12 +83,16 @@ def r1_r2(ctx, rep):
     t = rows.get("Take")
     ok = False
     if t is not None:
-        pushes = [n for n in walk(t["body"]) if n.get("k") == "mcall" and n["m"] == "push" and show(n["r"]) == "result" and "SqlTransform::Sort(" in show(n["a"][0])]
-        loc = [n for n in walk(t["body"]) if n.get("k") == "local" and show(n["pat"]) == "sort_to_emit"]
-        if pushes and loc and loc[0]["init"].get("k") == "if":
-            i = loc[0]["init"]
-            ok = (show(i["c"]) == "(take.partition.is_empty() && !take.sort.is_empty())" and show(tail_expr(i["t"])) == "take.sort.clone()"
-                  and show(tail_expr(i["e"])) == "sorting.clone()" and show(pushes[0]["a"][0]) == "SqlTransform::Sort(sort_to_emit)")
+        import alpha
+        A = alpha.Inliner(f)
+        pushes = [n for n in walk(t["body"]) if n.get("k") == "mcall" and n["m"] == "push" and show(n["r"]) == "result" and "SqlTransform::Sort(" in A.show(n["a"][0])]
+        tk = [x["n"] for x in walk(t["pat"]) if x.get("k") == "p_ident"]
+        tk = tk[0] if tk else "take"
+        if pushes:
+            # intermediate locals are inlined; `take` is the name the arm's pattern binds, `sorting` the accumulated state
+            got = A.show(pushes[0]["a"][0]).replace(" ", "")
+            want = f"SqlTransform::Sort(if ({tk}.partition.is_empty() && !{tk}.sort.is_empty()) {tk}.sort.clone() else sorting.clone())".replace(" ", "")
+            ok = got == want
     rep.check(ok, "sort-before-take", "before a take the effective order must be emitted: the take's own sort when it has one, otherwise the ACCUMULATED sorting "
               "(an order inherited from a let-table / earlier sort); `take` without an ORDER BY picks arbitrary rows", file=f["file"], line=t["l"] if t else f["l"], fn=f["path"])
     d = rows.get("DistinctOn")
@@ -216,14 +221,27 @@ def r5(ctx, rep):
                 except linear.NotLinear:
                     return show(n["r"]), show(cl["params"][0]), None
         return None
-    off = closure_linear(locs.get("offset"), "s") if locs.get("offset") else None
-    rep.check(off is not None and off[0] == "take.start" and off[2] == (("", -1), (off[1], 1)) and show(locs["offset"]).endswith(".unwrap_or(0)"), "offset",
-              f"OFFSET must be start - 1 (0 when there is no start): rows are 1-based; found {show(locs.get('offset'))}", file=f["file"], line=f["l"], fn=f["path"])
-    lim = closure_linear(locs.get("limit"), "e") if locs.get("limit") else None
-    rep.check(lim is not None and lim[0] == "take.end" and lim[2] == ((lim[1], 1), ("offset", -1)), "limit",
-              f"LIMIT must be end - offset (number of rows from start to end inclusive); found {show(locs.get('limit'))}", file=f["file"], line=f["l"], fn=f["path"])
-    rep.check(show(locs.get("take")) == "range_of_ranges(ranges)?" and "takes.into_iter().map(|x| x.range).collect()" in show(locs.get("ranges"), maxdepth=8), "takes-composed",
-              "consecutive takes in one SELECT must be composed by range_of_ranges", file=f["file"], line=f["l"], fn=f["path"])
+    # role anchors instead of local names: OFFSET is the integer put into the literal of the Offset clause, LIMIT is the
+    # receiver of `.map(expr_of_i64)`; every intermediate local is inlined
+    import alpha
+    A = alpha.Inliner(f)
+    lab = lambda t: "<take>" if t.startswith("range_of_ranges(") and t.endswith("?") else None
+    take_def = None
+    off_txt = None
+    for n in walk(f["body"]):
+        if n.get("k") == "call" and show(n["f"]).endswith("Literal::Integer") and n["a"] and off_txt is None and n["a"][0].get("k") == "path":
+            off_txt = A.show(n["a"][0], label=lab)
+    want_off = "<take>.start.map(|_c0| (_c0 - 1)).unwrap_or(0)"
+    rep.check(off_txt == want_off, "offset", f"OFFSET must be start - 1 of the composed take range (0 when there is no start): rows are 1-based; found `{off_txt}`", file=f["file"], line=f["l"], fn=f["path"])
+    lim_txt = None
+    for n in walk(f["body"]):
+        if n.get("k") == "mcall" and n["m"] == "map" and n["a"] and show(n["a"][0]) == "expr_of_i64":
+            lim_txt = A.show(n["r"], label=lab)
+    rep.check(lim_txt is not None and re.sub(r"_c\d", "_c", lim_txt) == re.sub(r"_c\d", "_c", f"<take>.end.map(|_c0| (_c0 - {want_off}))"), "limit",
+              f"LIMIT must be end - offset (number of rows from start to end inclusive); found `{lim_txt}`", file=f["file"], line=f["l"], fn=f["path"])
+    comp = [A.show(n, label=None) for n in walk(f["body"]) if n.get("k") == "try" and n["e"].get("k") == "call" and last_seg(show(n["e"]["f"])) == "range_of_ranges"]
+    rep.check(len(comp) == 1 and ".into_take())" in comp[0].replace("…", "_c0") and ".map(|_c0| _c0.range).collect()" in comp[0], "takes-composed",
+              f"the takes plucked from the atomic pipeline must be composed by range_of_ranges; found {comp}", file=f["file"], line=f["l"], fn=f["path"])
     # ORDER BY uses the LAST sort of the pipeline
     ob = locs.get("order_by")
     rep.check(any(k == "order_by" and v is not None and show(v, maxdepth=5).startswith("order_by.last().map(") for k, v in all_locs), "last-sort-wins",
